@@ -207,6 +207,41 @@ pub fn make_prog(members: Vec<Member>, space: &'static str, key: String) -> Stru
     StructProg { key, env, root, space, src }
 }
 
+/// The same program with a second module-scope variable of another address space sharing the root struct (or a
+/// struct nested in it), declared before or after the bound variable. What the host has to fill does not change.
+pub fn sibling_variants(p: &StructProg) -> Vec<StructProg> {
+    let mut out = vec![];
+    let line_start = match p.src.find("@group(0) @binding(0) var<") {
+        Some(i) => i,
+        None => return out,
+    };
+    let line_end = line_start + p.src[line_start..].find('\n').map(|i| i + 1).unwrap_or(p.src.len() - line_start);
+    let mut targets = vec![p.root.clone()];
+    for inner in [INNER, INNER2, DEEP] {
+        if p.src.contains(&format!("struct {inner} ")) {
+            targets.push(inner.to_string());
+            break;
+        }
+    }
+    for target in &targets {
+        for space in ["private", "workgroup"] {
+            for place in ["before", "after"] {
+                let decl = format!("var<{space}> sibling_{space}: {target};\n");
+                let mut src = p.src.clone();
+                src.insert_str(if place == "before" { line_start } else { line_end }, &decl);
+                if crate::common::naga_check(&src).is_err() {
+                    continue;
+                }
+                let mut q = p.clone();
+                q.src = src;
+                q.key = format!("sibling-{space}-{place}-{}|{}", if *target == p.root { "root" } else { "nested" }, p.key);
+                out.push(q);
+            }
+        }
+    }
+    out
+}
+
 fn member_names() -> [&'static str; 3] {
     // deliberately not in alphabetical order, and in three identifier styles (snake, camel, upper)
     ["m_b", "viewProj", "MVP"]
